@@ -36,7 +36,12 @@ Inductive rerr :=
     segments the kernel hands out; an empty schedule hands out everything
     that is left, a 0 entry counts as 1 (a Read on a net.Conn with a non-empty
     buffer returns at least one byte or an error). *)
-Record conn := mkConn { c_rest : bytes; c_sched : list N }.
+Record conn := mkConn {
+  c_rest : bytes;
+  c_sched : list N;
+  c_late : bool   (* the Read that takes the last bytes reports io.EOF together with them
+                     (allowed by io.Reader; TCP and net.Pipe report it separately) *)
+}.
 
 (** net.Conn.Read(p) with len(p) = [space] > 0. *)
 Definition conn_read (space : N) (c : conn) : bytes * option rerr * conn :=
@@ -48,7 +53,10 @@ Definition conn_read (space : N) (c : conn) : bytes * option rerr * conn :=
                  | s :: _ => N.max 1 s
                  end in
       let k := N.to_nat (N.min space (N.min seg (lenN (c_rest c)))) in
-      (firstn k (c_rest c), None, mkConn (skipn k (c_rest c)) (tl (c_sched c)))
+      let rest := skipn k (c_rest c) in
+      (firstn k (c_rest c),
+       match rest with [] => if c_late c then Some REof else None | _ => None end,
+       mkConn rest (tl (c_sched c)) (c_late c))
   end.
 
 (** * bufio.Reader *)
